@@ -597,9 +597,12 @@ def walk_stream(ck, cases, comp):
         ck.stat("walk", "kind:" + what + (":parent" if "siblings-parent" in lab else ""))
         if what == "table":
             got = ["".join(chr(x) for x in part) for part in v[1]] if v and v[0] == 1 else None
-            if got != a_path or "ok" not in a:
+            # the compiler found the sibling iff the target let-table is compiled into the query (a CTE of its name); a reference that
+            # fell through to a database table of that name compiles too, but defines no such CTE
+            bound = "ok" in a and re.search(r"\b%s AS \(" % re.escape(a_name), a["ok"]) is not None
+            if got != a_path or not bound:
                 ck.violation("module walk: Model/ModuleWalk.found_at says the reference is found in module %s (expected %s) and the compiler %s: %s"
-                             % (got, a_path, "accepts the program" if "ok" in a else "rejects it", text.replace("\n", " | ")[:300]),
+                             % (got, a_path, "binds it to the sibling" if bound else ("reads a database table of that name" if "ok" in a else "rejects the program"), text.replace("\n", " | ")[:300]),
                              {"kind": "walk", "label": lab, "rewritten": text, "model": repr(v), "compile": a if "ok" not in a else "ok"})
         else:
             at_call, at_decl = (v[1][0][0], v[1][0][1]) if v else (None, None)
